@@ -18,7 +18,7 @@ def renderTeal (out : IO.FS.Stream) (t : Teal) : IO Unit := do
 def renderFunction (out : IO.FS.Stream) (f : Function) : IO Unit := do
   emit out s!"fentry {f.entry}"
   for b in f.blocks do
-    emit out s!"fblock {b.key} idx={b.idx} sub={pencode b.sub} n={b.ins.length} next={natList b.next} prev={natList b.prev}"
+    emit out s!"fblock {b.key} idx={b.idx} sub={pencode b.sub} n={b.ins.length} next={natList b.next} prev={natList b.prev} leaf={if b.isLeaf then 1 else 0} abs={if accessedUsingAbsoluteIndex f.intcs b then 1 else 0} exit={match b.exitOp with | some (.callsub l) => "callsub:" ++ pencode l | some .retsub => "retsub" | _ => "-"}"
   for s in f.main :: f.subs do
     emit out s!"fsub {pencode s.name} entry={s.entry} blocks={natList s.blocks} retsubs={natList s.retsubs} callers={natList s.callers} retpoints={natList s.retPoints}"
 
